@@ -280,7 +280,7 @@ func classify(tail string, waitErr error) string {
 }
 
 // remote runs case idx of family fam in the executor child.
-func remote(fam string, idx uint64, timeout time.Duration) (res runRes) {
+func remote(fam string, idx uint64, cpuAllowance time.Duration) (res runRes) {
 	if tl := os.Getenv("C04_TIMELOG"); tl != "" {
 		t0 := time.Now()
 		defer func() {
@@ -303,29 +303,64 @@ func remote(fam string, idx uint64, timeout time.Duration) (res runRes) {
 	c.served++
 	fmt.Fprintf(c.in, "%s %d\n", fam, idx)
 	c.in.Flush()
-	tm := time.NewTimer(timeout)
-	defer tm.Stop()
-	select {
-	case ln, ok := <-c.lines:
-		if ok {
-			var r runRes
-			if err := json.Unmarshal([]byte(ln), &r); err != nil {
-				r = runRes{Status: "harness", Err: "bad child line: " + firstLine(ln)}
+	// The allowance is CPU time of the child (utime+stime from /proc), not wall
+	// time: on a loaded machine a case may take long without being stuck.  A
+	// generous wall cap only protects against a child that sleeps forever.
+	cpu0 := procCPU(c.cmd.Process.Pid)
+	wall0 := time.Now()
+	tk := time.NewTicker(200 * time.Millisecond)
+	defer tk.Stop()
+	for {
+		select {
+		case ln, ok := <-c.lines:
+			if ok {
+				var r runRes
+				if err := json.Unmarshal([]byte(ln), &r); err != nil {
+					r = runRes{Status: "harness", Err: "bad child line: " + firstLine(ln)}
+				}
+				return r
 			}
-			return r
+			err := c.cmd.Wait()
+			theChild = nil
+			tail := c.stderr.String()
+			cleanChildDir(c.cmd.Process.Pid)
+			return runRes{Status: "dead", Crash: classify(tail, err), Tail: excerpt(tail)}
+		case <-tk.C:
+			used := procCPU(c.cmd.Process.Pid) - cpu0
+			wall := time.Since(wall0)
+			if used > cpuAllowance.Seconds() || wall > 10*time.Minute {
+				c.cmd.Process.Kill()
+				c.cmd.Wait()
+				theChild = nil
+				cleanChildDir(c.cmd.Process.Pid)
+				crash := fmt.Sprintf("hang>%dcpu-s", int(cpuAllowance.Seconds()))
+				if used <= cpuAllowance.Seconds() {
+					crash = "wallcap" // starved or sleeping: never a violation
+				}
+				return runRes{Status: "dead", Crash: crash, Tail: excerpt(c.stderr.String())}
+			}
 		}
-		err := c.cmd.Wait()
-		theChild = nil
-		tail := c.stderr.String()
-		cleanChildDir(c.cmd.Process.Pid)
-		return runRes{Status: "dead", Crash: classify(tail, err), Tail: excerpt(tail)}
-	case <-tm.C:
-		c.cmd.Process.Kill()
-		c.cmd.Wait()
-		theChild = nil
-		cleanChildDir(c.cmd.Process.Pid)
-		return runRes{Status: "dead", Crash: fmt.Sprintf("hang>%ds", int(timeout.Seconds())), Tail: excerpt(c.stderr.String())}
 	}
+}
+
+// procCPU returns utime+stime of process pid in seconds (0 if unknown).
+func procCPU(pid int) float64 {
+	b, err := os.ReadFile(fmt.Sprintf("/proc/%d/stat", pid))
+	if err != nil {
+		return 0
+	}
+	s := string(b)
+	k := strings.LastIndexByte(s, ')')
+	if k < 0 {
+		return 0
+	}
+	f := strings.Fields(s[k+1:])
+	if len(f) < 13 {
+		return 0
+	}
+	ut, _ := strconv.ParseFloat(f[11], 64)
+	st, _ := strconv.ParseFloat(f[12], 64)
+	return (ut + st) / 100
 }
 
 func cleanChildDir(pid int) {
